@@ -933,7 +933,9 @@ def replace_zero(x, val):
 
 
 def array_from_args_gradmaker(argnum, ans, args, kwargs):
-    return lambda g: match_complex(args[argnum], g[argnum - 2])
+    # axes that ndmin prepends come before the axis that enumerates the arguments
+    idx = (0,) * (anp.ndim(ans) - anp.ndim(args[argnum]) - 1) + (argnum - 2,)
+    return lambda g: match_complex(args[argnum], g[idx])
 
 
 defvjp_argnum(anp.array_from_args, array_from_args_gradmaker)
